@@ -10,6 +10,13 @@ func VerifHTMLOptionsImmutable(n int) {
 	o := &Minifier{KeepComments: vBool("a"), KeepConditionalComments: vBool("b"), KeepSpecialComments: vBool("c"), KeepDefaultAttrVals: vBool("d"), KeepDocumentTags: vBool("e"), KeepEndTags: vBool("f"), KeepQuotes: vBool("g"), KeepWhitespace: vBool("h")}
 	before := *o
 	doc := []byte(`<!--[if IE]>x<![endif]--><p class="">a  b</p><!-- c -->`)
+	var params map[string]string
+	if vBool("inlineparam") {
+		params = map[string]string{"inline": "1"}
+	}
+	w0 := &vWriter{}
+	o.Minify(verifOptM(), w0, &vReader{b: append([]byte(nil), doc...)}, params) // e.g. embedded in HTML
+	vAssert(*o == before, "options struct is not mutated by a call with parameters")
 	w1 := &vWriter{}
 	err1 := o.Minify(verifOptM(), w1, &vReader{b: append([]byte(nil), doc...)}, nil)
 	vReach("after-call")
@@ -18,6 +25,12 @@ func VerifHTMLOptionsImmutable(n int) {
 	w2 := &vWriter{}
 	err2 := o.Minify(verifOptM(), w2, &vReader{b: append([]byte(nil), doc...)}, nil)
 	vAssert((err1 == nil) == (err2 == nil) && string(w1.buf) == string(w2.buf), "repeating the call gives the same bytes")
+	// the result does not depend on the history of calls on the shared struct
+	w3 := &vWriter{}
+	(&Minifier{}).Minify(verifOptM(), w3, &vReader{b: append([]byte(nil), doc...)}, nil)
+	if *o == (Minifier{}) {
+		vAssert(string(w3.buf) == string(w1.buf), "a used default options struct behaves like a fresh one")
+	}
 	vReach("end")
 }
 
